@@ -38,13 +38,13 @@ def run(c):
     c.cov["rule"] = ("cases = attack packets of ScionNetAtk.Attacks per instance, each replayed on the real simulator; non-trivial = packet with an "
                      "injected fault, a recombination/peering mix, or derived from a non-plain path; distinct by (instance, packet, ingress, clock, link state)")
     topos = sn.family(c, for_attacks=True)
-    insts, r, failed = sn.generate(c, topos, attacks=True, level=2 if thorough else 1, timeout=3400)
+    insts, r, failed = sn.generate(c, topos, attacks=True, level=2 if thorough else 1, timeout=sn.TMO)
     sn.design_theorems(c, r, failed, len(topos), len(insts))
     # the reference Router as a state machine over every attack packet of the smaller instances
     mc_topos = [t for t in topos if t["name"].startswith("T2") or t["name"].startswith("T3") or t["name"] in sn.SHAPES_MC]
     if thorough:
         mc_topos = topos
-    sn.model_check(c, mc_topos, level=2 if thorough else 1, timeout=3400)
+    sn.model_check(c, mc_topos, level=2 if thorough else 1, timeout=sn.TMO)
     c.cov["router_rules_exercised"] = sn.require_walk_coverage(
         c, [a["walk"] for i in insts for a in i["attacks"]],
         ["forward", "crossover", "peer", "deliver", "reject:mac", "reject:expired", "reject:iface", "reject:ifdown", "reject:segchange",
@@ -82,5 +82,5 @@ def run(c):
     if accepted:
         c.cov["traces_validated_against_impl"] = res2["injects"]
     c.cov["evaluations"] += res2["steps"]
-    c.cov["trace_stats"] = {k: res2[k] for k in ("topologies", "pairs", "events", "steps", "injects", "by_fam", "by_verdict")}
+    c.cov["trace_stats"] = {k: res2[k] for k in ("topologies", "pairs", "events", "steps", "injects", "by_fam", "by_verdict", "by_cls")}
     c.sample({"trace_events": "inject{pkt,at,ifin,now,down} / step{as,ifin,facts,k,class,eg,header state}"})
